@@ -44,7 +44,7 @@ def correspond(ctx):
             inp += ["ITER %s" % b] + ops + ["END"]
         batches.append(("iterator histories", "iter_probe", "\n".join(inp) + "\n", len(shard)))
     # counts / prints / nth_prime at kernel boundaries
-    cc = countlib.seam_cases(rng, 30 * scale) + countlib.shape_cases(rng, 50 * scale) + countlib.exhaustive_small(14)
+    cc = countlib.seam_cases(rng, 30 * scale) + countlib.shape_cases(rng, 50 * scale) + countlib.layer_cases(rng, 24 * scale) + countlib.exhaustive_small(14)
     lines = []
     for i, (a, b, kb, why) in enumerate(cc):
         lines.append("COUNT %d %d %d %d %d" % (1 + i % 6, a, b, [1, 2, 4][i % 3], kb))
@@ -63,6 +63,11 @@ def correspond(ctx):
     _, tcounts, _ = C09.gen_cases(rng, 120 * scale)
     for shard in ps.shard(tcounts, 4):
         batches.append(("ParallelSieve with dense boundaries", "tiling_probe", "\n".join(l for _, l in shard) + "\n", len(shard)))
+    # the bucket algorithms at unit level (real EratBig / EratMedium objects on all-ones sieves), incl. the boundary of EratBig's
+    # sizing of buckets_ (the accesses go through raw pointers: only the sanitizer sees an overrun)
+    ul = [countlib.unit_line("EBIG", c) for c in countlib.ebig_units(rng, 30 * scale)] + [countlib.unit_line("EMED", c) for c in countlib.emed_units(rng, 30 * scale)]
+    for shard in ps.shard(ul, 4):
+        batches.append(("EratBig / EratMedium units", "kernel_probe", "\n".join(l for _, l in shard) + "\n", len(shard)))
     # calculator
     ce = [("u64" if k % 2 else "int", C16.gen_malformed(rng) if k % 5 == 4 else C16.gen_expr(rng, "u64" if k % 2 else "int")) for k in range(800 * scale)]
     ce = [(t, e) for t, e in ce if "\n" not in e]
